@@ -895,7 +895,14 @@ func c14RandomHistory(r *RunCtx, p *PRNG, sc int) error {
 		if len(provers) == 0 {
 			provers = []string{w.provs[0]}
 		}
-		w.addFile(p.Bytes(32), owner, int64(1+p.Intn(5)), provers, 1)
+		mk, st0 := p.Bytes(32), int64(1+p.Intn(5))
+		w.addFile(mk, owner, st0, provers, 1)
+		if sc%3 == 1 && j == 0 {
+			// the same content posted at the same height by the same account under the upper-case spelling of its address:
+			// another file (files are keyed by the owner string as written), with forms and signatures of its own
+			w.addFile(mk, strings.ToUpper(owner), st0, provers, 1)
+			r.Hist("directed", "twin deals that differ only in the spelling of the owner")
+		}
 	}
 	_ = p.Chance(1, 4) // (an orphaned proof record used to be planted here: not a reachable state, see the environment moves)
 	fsmin := func() (int64, int64) {
@@ -1095,6 +1102,15 @@ func c14RandomHistory(r *RunCtx, p *PRNG, sc int) error {
 				}
 			default:
 				op.Creator, op.Start = PickOne(p, w.provs), lf.Start+1 // another key
+			}
+			if sc%3 == 1 && p.Chance(1, 3) {
+				// the signature names the twin deal - same content, same height, the owner in the other spelling -, for
+				// which no form was requested (or another one was): it counts there or nowhere
+				if up := strings.ToUpper(lf.Owner); up != lf.Owner {
+					op.Owner = up
+				} else {
+					op.Owner = strings.ToLower(lf.Owner)
+				}
 			}
 		}
 		w.exec(tr, op, hist, true)
